@@ -49,6 +49,7 @@ def eff : Instr → H × H
   | .popVarPath => (⟨0, 0, 0, 1, 0⟩, H.zero)
   | .beginCollectArguments => (H.zero, ⟨0, 0, 1, 0, 0⟩)
   | .pushNamed _ => (⟨0, 0, 1, 0, 0⟩, ⟨0, 0, 1, 0, 0⟩)
+  | .pushNamedByRef _ => (⟨0, 0, 1, 1, 0⟩, ⟨0, 0, 1, 0, 0⟩)
   | .pushUnnamedByVal => (⟨0, 0, 1, 0, 0⟩, ⟨0, 0, 1, 0, 0⟩)
   | .pushUnnamedByRef => (⟨0, 0, 1, 1, 0⟩, ⟨0, 0, 1, 0, 0⟩)
   | .pushStack => (⟨0, 0, 1, 0, 0⟩, ⟨0, 0, 1, 0, 0⟩)
@@ -57,6 +58,7 @@ def eff : Instr → H × H
   | .allocateArrayIntoA _ => (⟨0, 0, 1, 0, 0⟩, H.zero)
   | .enqueueToReturnStack _ => (H.zero, ⟨0, 0, 0, 0, 1⟩)
   | .dequeueFromReturnStack => (⟨0, 0, 0, 0, 1⟩, H.zero)
+  | .dequeueFromReturnStackWithPath => (⟨0, 0, 0, 0, 1⟩, ⟨0, 0, 0, 1, 0⟩)
   | _ => (H.zero, H.zero)
 
 /-- applies an effect; `none` = the stack would underflow -/
